@@ -182,7 +182,7 @@ def main(mod: Any, argv: Optional[List[str]] = None) -> int:
         with open(a.replay) as f:
             rep = json.load(f)
         m = run_cases(mod, rep.get('tier', a.tier), rep.get('seed', a.seed), 0, 1, budget, only_case=rep['case'])
-        return report(mod, m, a.tier, a.seed, t0, write_evidence=False)
+        return report(mod, m, a.tier, a.seed, t0, write_evidence=False, replay=True)
 
     nshards = int(getattr(mod, 'SHARDS', {}).get(a.tier, 1))
     if os.environ.get('VERIF_SHARDS'):
@@ -221,7 +221,8 @@ def main(mod: Any, argv: Optional[List[str]] = None) -> int:
     return report(mod, m, a.tier, a.seed, t0, write_evidence=not a.no_evidence)
 
 
-def report(mod: Any, m: Merged, tier: str, seed: int, t0: float, write_evidence: bool = True) -> int:
+def report(mod: Any, m: Merged, tier: str, seed: int, t0: float, write_evidence: bool = True,
+           replay: bool = False) -> int:
     pid = mod.PROPERTY
     known = [k for k in load_known() if k.get('property') == pid and k.get('status') == 'known']
     known_keys = {k['key']: k for k in known}
@@ -257,7 +258,8 @@ def report(mod: Any, m: Merged, tier: str, seed: int, t0: float, write_evidence:
         lines.append('KNOWN-FINDING: property=%s %s [%s] (observed %d times)' % (
             pid, known_keys[key].get('what', ''), key, n))
 
-    floors = mod.floors(tier) if hasattr(mod, 'floors') else {}
+    # non-vacuity floors are about a whole run; a replay executes one recorded case
+    floors = mod.floors(tier) if hasattr(mod, 'floors') and not replay else {}
     floor_fail = []
     counters = dict(m.obs)
     counters['evaluations'] = m.evaluations
